@@ -61,6 +61,7 @@ def check_read(mols, order, ids, entry, acc):
     return found
 
 
+@core.guarded(lambda pos, length, *a: dict(kind='trim', positions=list(pos), length=length))
 def check_trim(pos, length, acc):
     found = []
     case = dict(kind='trim', positions=list(pos), length=length)
